@@ -28,7 +28,7 @@ import sys
 
 from opsim.core import CLOCK, EPOCH, derive, HarnessError
 from opsim.sched import SeqTracer, Sched
-from opsim.util import call, weighted
+from opsim.util import call, weighted, quiet
 
 from operon_ai.topology.loops import CoherentFeedForwardLoop, GateLogic
 from operon_ai.core.types import ActionProtein
@@ -371,11 +371,11 @@ class World:
         cfg = self.cfg = plan["config"]
         self.thr, self.logic, self.enabled = cfg["threshold"], cfg["logic"], cfg["breaker"]
         self.timeout_us = int(round(cfg["timeout"] * 1_000_000))
-        self.budget = ATP_Store(budget=1_000_000, silent=True)
+        self.budget = ATP_Store(budget=1_000_000, silent=quiet())
         self.loop = CoherentFeedForwardLoop(
             budget=self.budget, gate_logic=GateLogic[self.logic], enable_circuit_breaker=self.enabled,
             failure_threshold=self.thr, recovery_timeout_seconds=cfg["timeout"], enable_cache=cfg["cache"],
-            cache_ttl_seconds=cfg["ttl"], silent=True)
+            cache_ttl_seconds=cfg["ttl"], silent=quiet())
         seams.assert_sim_lock(self.loop)
         self.cur_req = {}
         self.loop.executor, self.loop.assessor = Fake("Z-exec", "executor", self), Fake("Y-risk", "assessor", self)
